@@ -5,8 +5,24 @@
 //! for a verified recipient — where "verified" is re-derived from the statement on the observed
 //! registry state.  (Added after seeded change C04-m2: `verify_identity` returning after the first
 //! satisfied topic was invisible to the mock-verifier sub-check.)
+//!
+//! Extension (recovery through the real identity stack): the history also contains
+//! `RecoverIdentity{old,new}` on the identity registry storage (library `recover_identity`, which
+//! registers the recovery link old -> new and moves the identity), `RecoverBalance{old,new}` on the token
+//! (`RWA::recover_balance` behind the operator check; the token asks the library verifier's
+//! `recovery_target`, which asks the registry storage), partial / address freezes by the operator and
+//! `Register` (a wallet without identity is linked to one of the identities).  Model of "registered
+//! recovery target of `old`": the pair last registered through a successful `recover_identity(old, _)`.
+//! Oracle for `recover_balance` (docs of `RWA::recover_balance`): succeeds only towards the registered
+//! target and only for a verified new account; under exact operator authorization with both conditions
+//! true it must succeed; it returns `true` iff the old balance was positive, then the WHOLE balance, the
+//! partially frozen amount and the address flag are found on the new account and the old one holds
+//! nothing (whether the emptied old wallet stays flagged is not documented: not asserted); a refused call
+//! changes nothing and notifies nobody.  Compliance notifications of a successful recovery are not
+//! documented by `recover_balance`: counted, not asserted.  After every step: observed balances / frozen
+//! amounts / address flags equal the model, `0 <= frozen <= balance`, supply = sum of balances.
 
-use crate::contracts::c04::{mock_compliance::MockCompliance, rwa_tok::RwaTok};
+use crate::contracts::c04::{mock_compliance, mock_compliance::MockCompliance, mock_compliance::Note, rwa_tok::RwaTok};
 use crate::contracts::c15::verifier::IdVerifier;
 use crate::contracts::c20::{cti::Cti, ident::Ident, irs::Irs, issuer_mock::IssuerMock};
 use crate::engine::*;
@@ -14,13 +30,70 @@ use crate::envx::{self, call, Inv};
 use crate::gen::pick;
 use proptest::prelude::*;
 use serde::{Deserialize, Serialize};
-use soroban_sdk::{Address, Bytes, Env, Map, String as SString, Vec as SVec};
+use soroban_sdk::{symbol_short, Address, Bytes, Env, IntoVal, Map, String as SString, TryFromVal, Val, Vec as SVec};
 use std::collections::{BTreeMap, BTreeSet};
+use stellar_tokens::fungible::Base;
 use stellar_tokens::rwa::identity_registry_storage::{CountryData, CountryRelation, IdentityType, IndividualCountryRelation};
+use stellar_tokens::rwa::RWA;
 
 const TOPICS: [u32; 3] = [1, 2, 7];
-const N_ACC: usize = 3;
+/// on-chain identities (identity `i` initially belongs to account `i`)
+const N_ID: usize = 3;
+/// accounts: 3 investors + 3 spare wallets without an identity (recovery destinations)
+const N_ACC: usize = 6;
 const N_ISS: usize = 2;
+/// account selector of mint / transfer: investors 3/4 of the time, a spare wallet 1/4
+const ACC_TABLE: [usize; 12] = [0, 0, 0, 1, 1, 1, 2, 2, 2, 3, 4, 5];
+
+/// investors by the table; a spare-wallet slot is resolved onto the spare wallets that currently have an
+/// identity (recovered-to or registered wallets) when there are any
+fn acct_of(sel: u16, ident_of: &[Option<usize>]) -> usize {
+    let k = pick(sel, ACC_TABLE.len());
+    let a = ACC_TABLE[k];
+    if a < N_ID {
+        return a;
+    }
+    let live: Vec<usize> = (N_ID..N_ACC).filter(|x| ident_of[*x].is_some()).collect();
+    if live.is_empty() {
+        a
+    } else {
+        live[(a - N_ID) * live.len() / (N_ACC - N_ID)]
+    }
+}
+/// a selector that `acct_of` maps onto investor `k`
+fn sel_of_investor(k: usize) -> u16 {
+    (((3 * k + 1) << 16) / ACC_TABLE.len() + 64) as u16
+}
+
+/// authorization of an operator call
+#[derive(Clone, Debug, Serialize, Deserialize, PartialEq, Eq)]
+pub enum OpAuth {
+    Exact,
+    /// operator = admin, but no authorization entry
+    NoAuth,
+    /// an account names itself as operator and authorizes the call
+    Impostor(u16),
+}
+
+/// old account of a balance recovery, resolved against the model at execution time
+#[derive(Clone, Debug, Serialize, Deserialize)]
+pub enum RecOld {
+    /// an account with a registered recovery link (preferably one still holding tokens); `Any` if there is none
+    Linked(u16),
+    /// an account without a recovery link (preferably one holding tokens)
+    Unlinked(u16),
+    Any(u16),
+}
+
+/// new account of a balance recovery
+#[derive(Clone, Debug, Serialize, Deserialize)]
+pub enum RecNew {
+    /// the registered target of the old account (`Any` if there is none)
+    Target(u16),
+    /// an account that is NOT the registered target of the old account, preferably one that passes verification
+    OtherVerified(u16),
+    Any(u16),
+}
 
 #[derive(Clone, Debug, Serialize, Deserialize)]
 pub enum IdvOp {
@@ -29,12 +102,24 @@ pub enum IdvOp {
     TransferFrom { spender: u16, from: u16, to: u16, frac: u8 },
     /// issuer says (in)valid for a topic from now on
     SetValid { issuer: u8, topic: u8, valid: bool },
+    /// `acct` = index of the on-chain identity
     AddClaim { acct: u8, issuer: u8, topic: u8 },
     RemoveClaim { acct: u8, issuer: u8, topic: u8 },
     AddTopic(u8),
     RemoveTopic(u8),
     /// add / replace / remove the issuer's trusted topic set (mask over TOPICS; 0 = remove issuer)
     SetIssuerTopics { issuer: u8, mask: u8 },
+    /// `recover_identity(old, new)` on the identity registry storage.  `fresh`: old = an account with an identity
+    /// (preferably holding tokens), new = a wallet without identity that was never recovered; otherwise raw picks.
+    RecoverIdentity { old: u16, new: u16, fresh: bool },
+    /// `recover_balance(old, new, operator)` on the token.  `prep`: an operator freeze right before it
+    /// (0 none, 1 address flag on old, 2 half of the free tokens of old, 3 address flag on new, 4 half of the free tokens of new)
+    RecoverBalance { old: RecOld, new: RecNew, auth: OpAuth, prep: u8 },
+    /// operator freezes `frac`/4 of the free balance of a holder
+    FreezePartial { acct: u16, frac: u8 },
+    SetAddressFrozen { acct: u16, on: bool },
+    /// `add_identity(account, identity)` for a wallet
+    Register { acct: u16, ident: u8 },
 }
 
 #[derive(Clone, Debug, Serialize, Deserialize)]
@@ -43,36 +128,70 @@ pub struct IdvCase {
     pub topics: u8,
     /// topics each issuer is trusted for
     pub issuer_topics: [u8; N_ISS],
-    /// claims held: [account][issuer] = mask over TOPICS
-    pub claims: [[u8; N_ISS]; N_ACC],
-    /// accounts with a registered identity
+    /// claims held: [identity][issuer] = mask over TOPICS
+    pub claims: [[u8; N_ISS]; N_ID],
+    /// investor accounts with a registered identity (mask over the first N_ID accounts)
     pub registered: u8,
     pub ops: Vec<IdvOp>,
 }
 
 pub fn strategy(tier: Tier) -> BoxedStrategy<IdvCase> {
+    let op_auth = || prop_oneof![12 => Just(OpAuth::Exact), 1 => Just(OpAuth::NoAuth), 1 => any::<u16>().prop_map(OpAuth::Impostor)];
+    let rec = prop_oneof![
+        6 => (any::<u16>(), any::<u16>()).prop_map(|(o, n)| (RecOld::Linked(o), RecNew::Target(n))),
+        2 => (any::<u16>(), any::<u16>()).prop_map(|(o, n)| (RecOld::Linked(o), RecNew::OtherVerified(n))),
+        2 => (any::<u16>(), any::<u16>()).prop_map(|(o, n)| (RecOld::Unlinked(o), RecNew::OtherVerified(n))),
+        1 => (any::<u16>(), any::<u16>()).prop_map(|(o, n)| (RecOld::Any(o), RecNew::Any(n))),
+    ];
     let op = prop_oneof![
         4 => (any::<u16>(), 1u16..500).prop_map(|(to, amt)| IdvOp::Mint { to, amt }),
         6 => (any::<u16>(), any::<u16>(), 1u8..=4).prop_map(|(from, to, frac)| IdvOp::Transfer { from, to, frac }),
         3 => (any::<u16>(), any::<u16>(), any::<u16>(), 1u8..=4).prop_map(|(spender, from, to, frac)| IdvOp::TransferFrom { spender, from, to, frac }),
         3 => (0u8..N_ISS as u8, 0u8..3, any::<bool>()).prop_map(|(issuer, topic, valid)| IdvOp::SetValid { issuer, topic, valid }),
-        3 => (0u8..N_ACC as u8, 0u8..N_ISS as u8, 0u8..3).prop_map(|(acct, issuer, topic)| IdvOp::AddClaim { acct, issuer, topic }),
-        3 => (0u8..N_ACC as u8, 0u8..N_ISS as u8, 0u8..3).prop_map(|(acct, issuer, topic)| IdvOp::RemoveClaim { acct, issuer, topic }),
+        3 => (0u8..N_ID as u8, 0u8..N_ISS as u8, 0u8..3).prop_map(|(acct, issuer, topic)| IdvOp::AddClaim { acct, issuer, topic }),
+        3 => (0u8..N_ID as u8, 0u8..N_ISS as u8, 0u8..3).prop_map(|(acct, issuer, topic)| IdvOp::RemoveClaim { acct, issuer, topic }),
         1 => (0u8..3).prop_map(IdvOp::AddTopic),
         1 => (0u8..3).prop_map(IdvOp::RemoveTopic),
         2 => (0u8..N_ISS as u8, 0u8..8).prop_map(|(issuer, mask)| IdvOp::SetIssuerTopics { issuer, mask }),
+        4 => (any::<u16>(), any::<u16>(), proptest::bool::weighted(0.85)).prop_map(|(old, new, fresh)| IdvOp::RecoverIdentity { old, new, fresh }),
+        6 => (rec, op_auth(), prop_oneof![6 => Just(0u8), 1 => Just(1u8), 1 => Just(2u8), 1 => Just(3u8), 1 => Just(4u8)]).prop_map(|((old, new), auth, prep)| IdvOp::RecoverBalance { old, new, auth, prep }),
+        2 => (any::<u16>(), 1u8..=4).prop_map(|(acct, frac)| IdvOp::FreezePartial { acct, frac }),
+        1 => (any::<u16>(), proptest::bool::weighted(0.6)).prop_map(|(acct, on)| IdvOp::SetAddressFrozen { acct, on }),
+        1 => (any::<u16>(), 0u8..N_ID as u8).prop_map(|(acct, ident)| IdvOp::Register { acct, ident }),
     ];
     // mostly two or three required topics, issuers trusted for most of them, most claims present
     let mostly = |p: f64| proptest::collection::vec(proptest::bool::weighted(p), 3).prop_map(|v| v.iter().enumerate().fold(0u8, |m, (i, b)| m | ((*b as u8) << i)));
+    // the history mostly opens with mint attempts to the investors (they pass the same oracle as any other mint)
+    let funding = proptest::collection::vec(proptest::option::weighted(0.7, 1u16..500), N_ID);
+    // ... and, in 2 of 5 cases, continues with the registration of a recovery pair (so that later recoveries find one)
+    let early_pair = proptest::option::weighted(0.4, (any::<u16>(), any::<u16>()));
     (
         mostly(0.8),
         [mostly(0.75), mostly(0.6)],
         [[mostly(0.8), mostly(0.5)], [mostly(0.8), mostly(0.5)], [mostly(0.7), mostly(0.4)]],
         prop_oneof![4 => Just(0b111u8), 1 => 0u8..8],
+        funding,
+        early_pair,
         proptest::collection::vec(op, 3..tier.pick(30usize, 60usize)),
     )
-        .prop_map(|(topics, issuer_topics, claims, registered, ops)| IdvCase { topics, issuer_topics, claims, registered, ops })
+        .prop_map(|(topics, issuer_topics, claims, registered, funding, early_pair, tail)| {
+            let mut ops: Vec<IdvOp> = funding.iter().enumerate().filter_map(|(k, a)| a.map(|amt| IdvOp::Mint { to: sel_of_investor(k), amt })).collect();
+            if let Some((old, new)) = early_pair {
+                ops.push(IdvOp::RecoverIdentity { old, new, fresh: true });
+            }
+            ops.extend(tail);
+            IdvCase { topics, issuer_topics, claims, registered, ops }
+        })
         .boxed()
+}
+
+/// token state of all accounts, as observed / as the model says
+#[derive(Clone, Debug, PartialEq, Eq)]
+struct Obs {
+    supply: i128,
+    bal: Vec<i128>,
+    frozen: Vec<i128>,
+    addr_frozen: Vec<bool>,
 }
 
 struct W {
@@ -80,14 +199,20 @@ struct W {
     admin: Address,
     tok: Address,
     cti: Address,
+    irs: Address,
+    idv: Address,
+    comp: Address,
     accts: Vec<Address>,
     idents: Vec<Address>,
     issuers: Vec<Address>,
-    /// claims the identities hold (successful add_claim not since removed): (acct, issuer, topic index)
+    /// claims the identities hold (successful add_claim not since removed): (identity, issuer, topic index)
     claims: BTreeSet<(usize, usize, usize)>,
     /// what each issuer currently answers per topic index (default valid)
     valid: BTreeMap<(usize, usize), bool>,
-    registered: Vec<bool>,
+    /// identity (index) linked to each account in the identity registry storage
+    ident_of: Vec<Option<usize>>,
+    /// registered recovery target per old account: the pair last registered through `recover_identity`
+    link: BTreeMap<usize, usize>,
 }
 
 fn topics_vec(e: &Env, mask: u8) -> SVec<u32> {
@@ -98,6 +223,22 @@ fn topics_vec(e: &Env, mask: u8) -> SVec<u32> {
         }
     }
     v
+}
+
+fn country_list(e: &Env) -> SVec<CountryData> {
+    let mut cds: SVec<CountryData> = SVec::new(e);
+    cds.push_back(CountryData { country: CountryRelation::Individual(IndividualCountryRelation::Residence(840)), metadata: None });
+    cds
+}
+
+/// `sel` over `preferred` (weight 4 each) followed by `all` (weight 1 each); `None` when both are empty
+fn pick_pref(sel: u16, preferred: &[usize], all: &[usize]) -> Option<usize> {
+    let n = 4 * preferred.len() + all.len();
+    if n == 0 {
+        return None;
+    }
+    let k = pick(sel, n);
+    Some(if k < 4 * preferred.len() { preferred[k / 4] } else { all[k - 4 * preferred.len()] })
 }
 
 impl W {
@@ -113,12 +254,12 @@ impl W {
     }
     /// "verified" per the statement, on the observed registry
     fn id_ok(&self, a: usize, reg: &BTreeMap<u32, Vec<usize>>) -> bool {
-        if !self.registered[a] {
+        let Some(id) = self.ident_of[a] else {
             return false;
-        }
+        };
         reg.iter().all(|(t, issuers)| {
             let ti = TOPICS.iter().position(|x| x == t).unwrap();
-            issuers.iter().any(|i| self.claims.contains(&(a, *i, ti)) && *self.valid.get(&(*i, ti)).unwrap_or(&true))
+            issuers.iter().any(|i| self.claims.contains(&(id, *i, ti)) && *self.valid.get(&(*i, ti)).unwrap_or(&true))
         })
     }
     fn add_claim(&mut self, a: usize, i: usize, ti: usize) -> bool {
@@ -134,6 +275,48 @@ impl W {
         }
         r.is_ok()
     }
+    /// bulk read of the token state (the entry-point view is compared with it at the end of the case)
+    fn observe(&self) -> Obs {
+        let e = &self.e;
+        let hs = &self.accts;
+        e.as_contract(&self.tok, || Obs {
+            supply: Base::total_supply(e),
+            bal: hs.iter().map(|a| Base::balance(e, a)).collect(),
+            frozen: hs.iter().map(|a| RWA::get_frozen_tokens(e, a)).collect(),
+            addr_frozen: hs.iter().map(|a| RWA::is_frozen(e, a)).collect(),
+        })
+    }
+    fn read_log(&self) -> Vec<Note> {
+        let e = &self.e;
+        e.as_contract(&self.comp, || {
+            let v: SVec<Note> = e.storage().persistent().get(&symbol_short!("log")).unwrap_or(SVec::new(e));
+            v.iter().collect()
+        })
+    }
+    /// operator call on the token; returns (result, exact authorization attached)
+    fn op_call(&self, func: &str, mut args: SVec<Val>, mode: &OpAuth) -> (Result<Val, String>, bool) {
+        let e = &self.e;
+        let (operator, signer, exact) = match mode {
+            OpAuth::Exact => (self.admin.clone(), Some(self.admin.clone()), true),
+            OpAuth::NoAuth => (self.admin.clone(), None, false),
+            OpAuth::Impostor(i) => {
+                let who = self.accts[pick(*i, N_ACC)].clone();
+                (who.clone(), Some(who), false)
+            }
+        };
+        args.push_back(operator.into_val(e));
+        match &signer {
+            Some(s) => envx::set_auth(e, &[(s, &Inv::new(&self.tok, func, args.clone()))]),
+            None => envx::no_auth(e),
+        }
+        let r = call(e, &self.tok, func, args);
+        envx::no_auth(e);
+        (r, exact)
+    }
+    /// `recovery_target(old)` through the library verifier's entry point
+    fn recovery_target(&self, a: usize) -> Result<Option<Address>, String> {
+        envx::call_t::<Option<Address>>(&self.e, &self.idv, "recovery_target", args![&self.e; self.accts[a].clone()])
+    }
 }
 
 fn setup(case: &IdvCase) -> Result<W, Violation> {
@@ -145,7 +328,7 @@ fn setup(case: &IdvCase) -> Result<W, Violation> {
     let idv = e.register(IdVerifier, ());
     let comp = e.register(MockCompliance, ());
     let issuers: Vec<Address> = (0..N_ISS).map(|_| e.register(IssuerMock, ())).collect();
-    let idents: Vec<Address> = (0..N_ACC).map(|_| e.register(Ident, ())).collect();
+    let idents: Vec<Address> = (0..N_ID).map(|_| e.register(Ident, ())).collect();
     let tok = e.register(RwaTok, (admin.clone(), comp.clone(), idv.clone()));
     e.mock_all_auths();
     let su = |r: Result<soroban_sdk::Val, String>, what: &str| r.map_err(|er| violation("C04/real-idv/setup", format!("{what}: {er}")));
@@ -164,18 +347,16 @@ fn setup(case: &IdvCase) -> Result<W, Violation> {
             su(call(&e, &cti, "add_trusted_issuer", args![&e; iss.clone(), topics_vec(&e, mask), admin.clone()]), "add issuer")?;
         }
     }
-    let mut registered = vec![false; N_ACC];
-    for a in 0..N_ACC {
+    let mut ident_of = vec![None; N_ACC];
+    for a in 0..N_ID {
         if (case.registered >> a) & 1 == 1 {
-            let mut cds: SVec<CountryData> = SVec::new(&e);
-            cds.push_back(CountryData { country: CountryRelation::Individual(IndividualCountryRelation::Residence(840)), metadata: None });
-            su(call(&e, &irs, "add_identity", args![&e; accts[a].clone(), idents[a].clone(), IdentityType::Individual, cds]), "add identity")?;
-            registered[a] = true;
+            su(call(&e, &irs, "add_identity", args![&e; accts[a].clone(), idents[a].clone(), IdentityType::Individual, country_list(&e)]), "add identity")?;
+            ident_of[a] = Some(a);
         }
     }
     envx::no_auth(&e);
-    let mut w = W { e, admin, tok, cti, accts, idents, issuers, claims: BTreeSet::new(), valid: BTreeMap::new(), registered };
-    for a in 0..N_ACC {
+    let mut w = W { e, admin, tok, cti, irs, idv, comp, accts, idents, issuers, claims: BTreeSet::new(), valid: BTreeMap::new(), ident_of, link: BTreeMap::new() };
+    for a in 0..N_ID {
         for i in 0..N_ISS {
             for ti in 0..3 {
                 if (case.claims[a][i] >> ti) & 1 == 1 {
@@ -190,14 +371,25 @@ fn setup(case: &IdvCase) -> Result<W, Violation> {
 pub fn run(case: &IdvCase, ctx: &mut Ctx) -> R {
     let mut w = setup(case)?;
     let e = w.e.clone();
-    let bal = |w: &W, a: usize| envx::call_t::<i128>(&w.e, &w.tok, "balance", args![&w.e; w.accts[a].clone()]).unwrap_or(0);
     let (mut blocked_from, mut blocked_to, mut ok_move, mut multi_topic) = (false, false, false, false);
+    // recovery bookkeeping
+    let (mut rec_moved, mut rec_refused) = (false, false);
+    let mut recovered_pairs: BTreeSet<(usize, usize)> = BTreeSet::new();
+    // model of the token state
+    let mut m = w.observe();
+    ensure!(m.supply == 0 && m.bal.iter().all(|b| *b == 0) && m.frozen.iter().all(|b| *b == 0) && m.addr_frozen.iter().all(|b| !*b), "C04/real-idv/setup", "fresh token is not empty: {:?}", m);
     for (step, op) in case.ops.iter().enumerate() {
         let what = format!("step {step} {:?}", op);
         let Some(reg) = w.registry() else { bail!("C04/real-idv/registry-getter-failed", "{what}") };
         if reg.len() >= 2 {
             multi_topic = true;
         }
+        let mut before = m.clone();
+        // entry point exercised by the step (for signatures), whether the token call succeeded, and address flags
+        // whose value after the call is not documented (copied from the observation)
+        let mut f = "registry-edit";
+        let mut ok = true;
+        let mut open_flags: Vec<usize> = Vec::new();
         match op {
             IdvOp::SetValid { issuer, topic, valid } => {
                 envx::no_auth(&e);
@@ -247,63 +439,325 @@ pub fn run(case: &IdvCase, ctx: &mut Ctx) -> R {
                 };
                 envx::no_auth(&e);
             }
+            IdvOp::Register { acct, ident } => {
+                // the model follows the outcome (the registry storage itself is C20's subject)
+                let a = pick(*acct, N_ACC);
+                envx::no_auth(&e);
+                let r = call(&e, &w.irs, "add_identity", args![&e; w.accts[a].clone(), w.idents[*ident as usize].clone(), IdentityType::Individual, country_list(&e)]);
+                if r.is_ok() {
+                    w.ident_of[a] = Some(*ident as usize);
+                    ctx.class("idv_register_ok");
+                }
+            }
+            IdvOp::RecoverIdentity { old, new, fresh } => {
+                f = "recover_identity";
+                let (oi, ni) = if *fresh {
+                    let with_id: Vec<usize> = (0..N_ACC).filter(|a| w.ident_of[*a].is_some()).collect();
+                    let rich: Vec<usize> = with_id.iter().copied().filter(|a| m.bal[*a] > 0).collect();
+                    let free: Vec<usize> = (0..N_ACC).filter(|a| w.ident_of[*a].is_none() && !w.link.contains_key(a)).collect();
+                    (pick_pref(*old, &rich, &with_id).unwrap_or(pick(*old, N_ACC)), pick_pref(*new, &[], &free).unwrap_or(pick(*new, N_ACC)))
+                } else {
+                    (pick(*old, N_ACC), pick(*new, N_ACC))
+                };
+                // documented preconditions of `recover_identity`: old has an identity, new was not recovered, new has no identity
+                let pre = w.ident_of[oi].is_some() && !w.link.contains_key(&ni) && w.ident_of[ni].is_none();
+                envx::no_auth(&e);
+                let r = call(&e, &w.irs, "recover_identity", args![&e; w.accts[oi].clone(), w.accts[ni].clone()]);
+                if r.is_ok() {
+                    ensure!(
+                        pre,
+                        "C04/recover_identity/documented-error-missing",
+                        "{what}: recover_identity({oi} -> {ni}) succeeded although a documented precondition fails: identities {:?}, links {:?}",
+                        w.ident_of,
+                        w.link
+                    );
+                    w.ident_of[ni] = w.ident_of[oi].take();
+                    w.link.insert(oi, ni);
+                    ctx.class("rec_link_registered");
+                    if m.bal[oi] > 0 {
+                        ctx.class("rec_link_registered_for_holder");
+                    }
+                    // the token-side view of the link (library verifier -> registry storage)
+                    let t = w.recovery_target(oi);
+                    ensure!(
+                        t == Ok(Some(w.accts[ni].clone())),
+                        "C04/recovery_target/not-the-registered-target",
+                        "{what}: after recover_identity({oi} -> {ni}) the verifier's recovery_target({oi}) is {:?}, expected account {ni} = {:?}",
+                        t,
+                        w.accts[ni]
+                    );
+                } else if pre {
+                    ctx.class("stricter_than_model:recover_identity");
+                } else {
+                    ctx.class("rec_link_refused");
+                }
+            }
+            IdvOp::FreezePartial { acct, frac } => {
+                f = "freeze_partial_tokens";
+                // preferably a wallet of a registered recovery pair with something free, then any holder
+                let holders: Vec<usize> = (0..N_ACC).filter(|a| m.bal[*a] - m.frozen[*a] > 0).collect();
+                let paired: Vec<usize> = holders.iter().copied().filter(|a| w.link.contains_key(a) || w.link.values().any(|t| t == a)).collect();
+                let a = pick_pref(*acct, &paired, &holders).unwrap_or(pick(*acct, N_ACC));
+                let free = m.bal[a] - m.frozen[a];
+                let amt = (free / 4 * (*frac as i128)).max(if free > 0 { 1 } else { 0 });
+                if amt == 0 {
+                    ctx.class("idv_freeze_skipped_nothing_free");
+                    continue;
+                }
+                let (r, _) = w.op_call(f, args![&e; w.accts[a].clone(), amt], &OpAuth::Exact);
+                ok = r.is_ok();
+                if ok {
+                    m.frozen[a] += amt;
+                    ctx.class("idv_freeze_partial_ok");
+                } else {
+                    // owned by the `gates` sub-check
+                    ctx.class("stricter_than_model:freeze_partial_tokens");
+                }
+            }
+            IdvOp::SetAddressFrozen { acct, on } => {
+                f = "set_address_frozen";
+                // preferably an old wallet still holding tokens or the target of a registered recovery pair, then holders, then anybody
+                let mut rest: Vec<usize> = (0..N_ACC).filter(|a| m.bal[*a] > 0).collect();
+                rest.extend(0..N_ACC);
+                let paired: Vec<usize> = (0..N_ACC).filter(|a| (w.link.contains_key(a) && m.bal[*a] > 0) || w.link.values().any(|t| t == a)).collect();
+                let a = pick_pref(*acct, &paired, &rest).unwrap_or(0);
+                let (r, _) = w.op_call(f, args![&e; w.accts[a].clone(), *on], &OpAuth::Exact);
+                ok = r.is_ok();
+                if ok {
+                    m.addr_frozen[a] = *on;
+                    ctx.class("idv_set_address_frozen_ok");
+                } else {
+                    ctx.class("stricter_than_model:set_address_frozen");
+                }
+            }
+            IdvOp::RecoverBalance { old, new, auth, prep } => {
+                f = "recover_balance";
+                let all: Vec<usize> = (0..N_ACC).collect();
+                let oi = match old {
+                    RecOld::Linked(s) => {
+                        let linked: Vec<usize> = w.link.keys().copied().collect();
+                        let rich: Vec<usize> = linked.iter().copied().filter(|a| m.bal[*a] > 0).collect();
+                        pick_pref(*s, &rich, &linked).unwrap_or(pick(*s, N_ACC))
+                    }
+                    RecOld::Unlinked(s) => {
+                        let un: Vec<usize> = (0..N_ACC).filter(|a| !w.link.contains_key(a)).collect();
+                        let rich: Vec<usize> = un.iter().copied().filter(|a| m.bal[*a] > 0).collect();
+                        pick_pref(*s, &rich, &un).unwrap_or(pick(*s, N_ACC))
+                    }
+                    RecOld::Any(s) => pick(*s, N_ACC),
+                };
+                let target = w.link.get(&oi).copied();
+                let ni = match new {
+                    RecNew::Target(s) => target.unwrap_or(pick(*s, N_ACC)),
+                    RecNew::OtherVerified(s) => {
+                        let others: Vec<usize> = (0..N_ACC).filter(|a| Some(*a) != target && *a != oi).collect();
+                        let verified: Vec<usize> = others.iter().copied().filter(|a| w.id_ok(*a, &reg)).collect();
+                        pick_pref(*s, &verified, &others).unwrap_or(pick(*s, N_ACC))
+                    }
+                    RecNew::Any(s) => pick_pref(*s, &[], &all).unwrap_or(0),
+                };
+                let is_target = target == Some(ni);
+                let ok_new = w.id_ok(ni, &reg);
+                // operator freeze right before the recovery (model follows the outcome; freezes are owned by `gates`)
+                match *prep {
+                    1 | 3 => {
+                        let a = if *prep == 1 { oi } else { ni };
+                        if w.op_call("set_address_frozen", args![&e; w.accts[a].clone(), true], &OpAuth::Exact).0.is_ok() {
+                            m.addr_frozen[a] = true;
+                        }
+                    }
+                    2 | 4 => {
+                        let a = if *prep == 2 { oi } else { ni };
+                        let half = (m.bal[a] - m.frozen[a] + 1) / 2;
+                        if half > 0 && w.op_call("freeze_partial_tokens", args![&e; w.accts[a].clone(), half], &OpAuth::Exact).0.is_ok() {
+                            m.frozen[a] += half;
+                        }
+                    }
+                    _ => {}
+                }
+                before = m.clone();
+                let log0 = w.read_log();
+                let (r, exact) = w.op_call(f, args![&e; w.accts[oi].clone(), w.accts[ni].clone()], auth);
+                ok = r.is_ok();
+                ctx.op(ok);
+                let log1 = w.read_log();
+                if recovered_pairs.contains(&(oi, ni)) {
+                    ctx.class("rec_repeated_after_success");
+                }
+                match &r {
+                    Ok(v) => {
+                        ensure!(exact, "C04/recover_balance/unauthorized", "{what}: recovery {oi}->{ni} succeeded in auth mode {:?}", auth);
+                        ensure!(target.is_some(), "C04/recover_balance/no-recovery-link", "{what}: recovery {oi}->{ni} succeeded although no recovery was ever registered for account {oi}; links {:?}", w.link);
+                        ensure!(is_target, "C04/recover_balance/wrong-target", "{what}: recovery {oi}->{ni} succeeded although the registered recovery target of {oi} is {:?}; links {:?}", target, w.link);
+                        ensure!(
+                            ok_new,
+                            "C04/recover_balance/identity-new",
+                            "{what}: recovery {oi}->{ni} succeeded although the new account does not pass identity verification; registry {:?}, claims {:?}, validity {:?}, identities {:?}",
+                            reg,
+                            w.claims,
+                            w.valid,
+                            w.ident_of
+                        );
+                        let ret = bool::try_from_val(&e, v).map_err(|_| violation("C04/recover_balance/return-type", format!("{what}: non-bool return")))?;
+                        let moved = before.bal[oi];
+                        ensure!(ret == (moved > 0), "C04/recover_balance/return-value", "{what}: returned {ret} for a lost balance of {moved}");
+                        recovered_pairs.insert((oi, ni));
+                        if moved > 0 {
+                            let fr = before.frozen[oi];
+                            let fl = before.addr_frozen[oi];
+                            if before.frozen[ni] > 0 || before.addr_frozen[ni] {
+                                ctx.class("rec_onto_target_holding_a_freeze");
+                            }
+                            if before.bal[ni] > 0 {
+                                ctx.class("rec_onto_target_holding_tokens");
+                            }
+                            m.bal[oi] -= moved;
+                            m.bal[ni] += moved;
+                            m.frozen[oi] -= fr;
+                            m.frozen[ni] += fr;
+                            m.addr_frozen[ni] = m.addr_frozen[ni] || fl;
+                            // whether the emptied old wallet stays flagged is not documented
+                            open_flags.push(oi);
+                            rec_moved = true;
+                            ctx.class("rec_ok_moved");
+                            if fr > 0 {
+                                ctx.class("rec_carries_partial_freeze");
+                            }
+                            if fl {
+                                ctx.class("rec_carries_address_freeze");
+                            }
+                            if w.link.values().any(|t| *t == oi) {
+                                ctx.class("rec_chained");
+                            }
+                            // notifications of a recovery are not documented by `recover_balance`: counted only
+                            let delta: &[Note] = if log1.len() >= log0.len() && log1[..log0.len()] == log0[..] { &log1[log0.len()..] } else { &log1[..] };
+                            let exact_note = Note { kind: mock_compliance::TRANSFERRED, from: w.accts[oi].clone(), to: w.accts[ni].clone(), amount: moved, token: w.tok.clone() };
+                            ctx.class(if delta.len() == 1 && delta[0] == exact_note {
+                                "rec_notified:transferred-once-exact"
+                            } else if delta.is_empty() {
+                                "rec_notified:none"
+                            } else {
+                                "rec_notified:other"
+                            });
+                        } else {
+                            // "false if no tokens to recover": nothing to move; the flags of both wallets are left open
+                            open_flags.push(oi);
+                            open_flags.push(ni);
+                            ctx.class("rec_zero_balance_false");
+                        }
+                    }
+                    Err(_) => {
+                        ensure!(log1 == log0, "C04/recover_balance/compliance-log:notified-by-failed-call", "{what}: refused recovery {oi}->{ni} left notifications {:?} -> {:?}", log0, log1);
+                        if !exact {
+                            ctx.class("rec_rejected_auth");
+                        } else if is_target && ok_new {
+                            bail!(
+                                "C04/recover_balance/refused",
+                                "{what}: recovery {oi}->{ni} towards the registered target with a verified new account refused: {:?}; links {:?}, registry {:?}, claims {:?}, identities {:?}",
+                                r,
+                                w.link,
+                                reg,
+                                w.claims,
+                                w.ident_of
+                            );
+                        } else {
+                            rec_refused = true;
+                            if target.is_none() {
+                                ctx.class("rec_refused:no-link");
+                                if ok_new {
+                                    ctx.class("rec_refused_only:no-link");
+                                }
+                            } else if !is_target {
+                                ctx.class("rec_refused:wrong-target");
+                                if ok_new {
+                                    ctx.class("rec_refused_only:wrong-target");
+                                }
+                            } else {
+                                ctx.class("rec_refused_only:identity-new");
+                            }
+                        }
+                    }
+                }
+            }
             IdvOp::Mint { to, amt } => {
-                let t = pick(*to, N_ACC);
+                f = "mint";
+                let t = acct_of(*to, &w.ident_of);
                 let a: soroban_sdk::Vec<soroban_sdk::Val> = args![&e; w.accts[t].clone(), *amt as i128, w.admin.clone()];
                 envx::set_auth(&e, &[(&w.admin, &Inv::new(&w.tok, "mint", a.clone()))]);
                 let r = call(&e, &w.tok, "mint", a);
                 envx::no_auth(&e);
+                ok = r.is_ok();
                 ctx.op(r.is_ok());
                 let ok_to = w.id_ok(t, &reg);
                 if r.is_ok() {
-                    ensure!(ok_to, "C04/mint/gate-bypass:identity-to", "{what}: mint to account {t} succeeded although it does not pass identity verification; registry {:?}, claims {:?}, validity {:?}, registered {:?}", reg, w.claims, w.valid, w.registered);
+                    ensure!(ok_to, "C04/mint/gate-bypass:identity-to", "{what}: mint to account {t} succeeded although it does not pass identity verification; registry {:?}, claims {:?}, validity {:?}, identities {:?}", reg, w.claims, w.valid, w.ident_of);
+                    m.bal[t] += *amt as i128;
+                    m.supply += *amt as i128;
                     ctx.class("idv_mint_ok");
                 } else if ok_to {
-                    bail!("C04/mint/refused-with-open-gates", "{what}: recipient {t} passes identity verification, compliance allows, yet mint was refused: {:?}; registry {:?}, claims {:?}", r, reg, w.claims);
+                    if before.addr_frozen[t] {
+                        // the trait docs list a frozen-address error for mint, the statement does not: counted (as in `gates`)
+                        ctx.class("stricter_than_model:mint_to_frozen");
+                    } else {
+                        bail!("C04/mint/refused-with-open-gates", "{what}: recipient {t} passes identity verification, compliance allows, yet mint was refused: {:?}; registry {:?}, claims {:?}", r, reg, w.claims);
+                    }
                 } else {
                     blocked_to = true;
                     ctx.class("idv_mint_blocked");
                 }
             }
             IdvOp::Transfer { from, to, frac } | IdvOp::TransferFrom { from, to, frac, .. } => {
-                let f = pick(*from, N_ACC);
-                let t = pick(*to, N_ACC);
-                let b = bal(&w, f);
+                let fi = acct_of(*from, &w.ident_of);
+                let t = acct_of(*to, &w.ident_of);
+                let b = before.bal[fi];
                 let amt = (b / 4 * (*frac as i128)).max(if b > 0 { 1 } else { 0 });
                 if amt == 0 {
                     ctx.class("idv_skipped_empty_sender");
                     continue;
                 }
                 let (func, r) = if let IdvOp::TransferFrom { spender, .. } = op {
-                    let s = pick(*spender, N_ACC);
+                    let s = acct_of(*spender, &w.ident_of);
                     // the sender approves the spender first (approve is not identity-gated by the statement)
                     let live = envx::seq(&e) + 100;
-                    let aa: soroban_sdk::Vec<soroban_sdk::Val> = args![&e; w.accts[f].clone(), w.accts[s].clone(), amt, live];
-                    envx::set_auth(&e, &[(&w.accts[f], &Inv::new(&w.tok, "approve", aa.clone()))]);
+                    let aa: soroban_sdk::Vec<soroban_sdk::Val> = args![&e; w.accts[fi].clone(), w.accts[s].clone(), amt, live];
+                    envx::set_auth(&e, &[(&w.accts[fi], &Inv::new(&w.tok, "approve", aa.clone()))]);
                     let ar = call(&e, &w.tok, "approve", aa);
                     if ar.is_err() {
                         envx::no_auth(&e);
                         ctx.class("idv_approve_refused");
                         continue;
                     }
-                    let a: soroban_sdk::Vec<soroban_sdk::Val> = args![&e; w.accts[s].clone(), w.accts[f].clone(), w.accts[t].clone(), amt];
+                    let a: soroban_sdk::Vec<soroban_sdk::Val> = args![&e; w.accts[s].clone(), w.accts[fi].clone(), w.accts[t].clone(), amt];
                     envx::set_auth(&e, &[(&w.accts[s], &Inv::new(&w.tok, "transfer_from", a.clone()))]);
                     ("transfer_from", call(&e, &w.tok, "transfer_from", a))
                 } else {
-                    let a: soroban_sdk::Vec<soroban_sdk::Val> = args![&e; w.accts[f].clone(), w.accts[t].clone(), amt];
-                    envx::set_auth(&e, &[(&w.accts[f], &Inv::new(&w.tok, "transfer", a.clone()))]);
+                    let a: soroban_sdk::Vec<soroban_sdk::Val> = args![&e; w.accts[fi].clone(), w.accts[t].clone(), amt];
+                    envx::set_auth(&e, &[(&w.accts[fi], &Inv::new(&w.tok, "transfer", a.clone()))]);
                     ("transfer", call(&e, &w.tok, "transfer", a))
                 };
+                f = func;
                 envx::no_auth(&e);
+                ok = r.is_ok();
                 ctx.op(r.is_ok());
-                let (okf, okt) = (w.id_ok(f, &reg), w.id_ok(t, &reg));
+                let (okf, okt) = (w.id_ok(fi, &reg), w.id_ok(t, &reg));
+                // freeze gates of the statement (the token is never paused here, compliance always approves)
+                let free = b - before.frozen[fi];
+                let (fz_from, fz_to, fz_part) = (before.addr_frozen[fi], before.addr_frozen[t], amt > free);
                 if r.is_ok() {
-                    ensure!(okf, format!("C04/{func}/gate-bypass:identity-from"), "{what}: succeeded although sender {f} does not pass identity verification; registry {:?}, claims {:?}, validity {:?}, registered {:?}", reg, w.claims, w.valid, w.registered);
-                    ensure!(okt, format!("C04/{func}/gate-bypass:identity-to"), "{what}: succeeded although receiver {t} does not pass identity verification; registry {:?}, claims {:?}, validity {:?}, registered {:?}", reg, w.claims, w.valid, w.registered);
+                    ensure!(okf, format!("C04/{func}/gate-bypass:identity-from"), "{what}: succeeded although sender {fi} does not pass identity verification; registry {:?}, claims {:?}, validity {:?}, identities {:?}", reg, w.claims, w.valid, w.ident_of);
+                    ensure!(okt, format!("C04/{func}/gate-bypass:identity-to"), "{what}: succeeded although receiver {t} does not pass identity verification; registry {:?}, claims {:?}, validity {:?}, identities {:?}", reg, w.claims, w.valid, w.ident_of);
+                    ensure!(!fz_from, format!("C04/{func}/gate-bypass:from-frozen"), "{what}: succeeded although the address of sender {fi} is frozen");
+                    ensure!(!fz_to, format!("C04/{func}/gate-bypass:to-frozen"), "{what}: succeeded although the address of receiver {t} is frozen");
+                    ensure!(!fz_part, format!("C04/{func}/gate-bypass:partial-freeze"), "{what}: moved {amt} although only {free} of the balance {b} of sender {fi} is unfrozen");
+                    m.bal[fi] -= amt;
+                    m.bal[t] += amt;
                     ok_move = true;
                     ctx.class("idv_move_ok");
-                } else if okf && okt {
-                    bail!(format!("C04/{func}/refused-with-open-gates"), "{what}: both parties pass identity verification, nothing is paused or frozen, amount {amt} <= balance {b}, yet refused: {:?}; registry {:?}, claims {:?}", r, reg, w.claims);
+                    if w.link.values().any(|x| *x == fi) {
+                        ctx.class("idv_move_ok_from_recovered_wallet");
+                    }
+                } else if okf && okt && !fz_from && !fz_to && !fz_part {
+                    bail!(format!("C04/{func}/refused-with-open-gates"), "{what}: both parties pass identity verification, nothing is paused or frozen, amount {amt} <= free balance {free} of {b}, yet refused: {:?}; registry {:?}, claims {:?}", r, reg, w.claims);
                 } else {
                     if !okf {
                         blocked_from = true;
@@ -313,12 +767,18 @@ pub fn run(case: &IdvCase, ctx: &mut Ctx) -> R {
                         blocked_to = true;
                         ctx.class("idv_move_blocked_to");
                     }
+                    if okf && okt {
+                        ctx.class("idv_move_blocked_by_freeze_only");
+                    }
+                    if !okf && w.link.contains_key(&fi) {
+                        ctx.class("idv_move_blocked_from_recovered_old_wallet");
+                    }
                     // which kind of failing party: satisfied for the first required topic but not a later one?
-                    for (x, okx) in [(f, okf), (t, okt)] {
-                        if !okx && w.registered[x] && reg.len() >= 2 {
+                    for (x, okx) in [(fi, okf), (t, okt)] {
+                        if let (false, Some(id), true) = (okx, w.ident_of[x], reg.len() >= 2) {
                             let first = reg.iter().next().unwrap();
                             let ti = TOPICS.iter().position(|q| q == first.0).unwrap();
-                            if first.1.iter().any(|i| w.claims.contains(&(x, *i, ti)) && *w.valid.get(&(*i, ti)).unwrap_or(&true)) {
+                            if first.1.iter().any(|i| w.claims.contains(&(id, *i, ti)) && *w.valid.get(&(*i, ti)).unwrap_or(&true)) {
                                 ctx.class("idv_blocked_first_topic_ok_later_missing");
                             }
                         }
@@ -326,10 +786,55 @@ pub fn run(case: &IdvCase, ctx: &mut Ctx) -> R {
                 }
             }
         }
+
+        // ---- observable token state vs model, after every step
+        let o2 = w.observe();
+        if ok {
+            for i in open_flags {
+                m.addr_frozen[i] = o2.addr_frozen[i];
+            }
+            if o2 != m {
+                let clause = match f {
+                    "recover_balance" if o2.bal != m.bal || o2.supply != m.supply => "balance-not-moved-whole",
+                    "recover_balance" if o2.frozen != m.frozen => "partial-freeze-not-carried",
+                    "recover_balance" if o2.addr_frozen != m.addr_frozen => "address-freeze-not-carried",
+                    _ => "state-mismatch",
+                };
+                bail!(format!("C04/{f}/{clause}"), "{what}: state after the call {:?}, model {:?} (before {:?})", o2, m, before);
+            }
+        } else {
+            ensure!(o2 == before, format!("C04/{f}/refused-call-changed-state"), "{what}: refused but state changed {:?} -> {:?}", before, o2);
+        }
+        // ---- invariant 0 <= frozen <= balance, supply = sum of balances
+        for i in 0..N_ACC {
+            ensure!(0 <= o2.frozen[i] && o2.frozen[i] <= o2.bal[i], "C04/invariant/frozen-within-balance", "{what}: account {i} has frozen {} with balance {}", o2.frozen[i], o2.bal[i]);
+        }
+        ensure!(o2.bal.iter().sum::<i128>() == o2.supply, "C04/invariant/supply", "{what}: balances {:?} do not add up to the supply {}", o2.bal, o2.supply);
     }
+
+    // the verifier's view of every recovery link equals the registered pairs; entry points agree with the bulk read
+    envx::no_auth(&e);
+    let o = w.observe();
+    for a in 0..N_ACC {
+        let t = w.recovery_target(a);
+        let expected = w.link.get(&a).map(|n| w.accts[*n].clone());
+        ensure!(t == Ok(expected.clone()), "C04/recovery_target/not-the-registered-target", "end of history: recovery_target({a}) is {:?}, the registered pair says {:?} (links {:?})", t, expected, w.link);
+        let ad = w.accts[a].clone();
+        let b = envx::call_t::<i128>(&e, &w.tok, "balance", args![&e; ad.clone()]).map_err(|er| violation("C04/api/balance-failed", er))?;
+        let fz = envx::call_t::<i128>(&e, &w.tok, "get_frozen_tokens", args![&e; ad.clone()]).map_err(|er| violation("C04/api/get_frozen_tokens-failed", er))?;
+        let fl = envx::call_t::<bool>(&e, &w.tok, "is_frozen", args![&e; ad]).map_err(|er| violation("C04/api/is_frozen-failed", er))?;
+        ensure!(b == o.bal[a] && fz == o.frozen[a] && fl == o.addr_frozen[a], "C04/api/getter-mismatch", "account {a}: entry points say ({b}, {fz}, {fl}), bulk read ({}, {}, {})", o.bal[a], o.frozen[a], o.addr_frozen[a]);
+    }
+
     if ok_move && blocked_from && blocked_to && multi_topic {
         ctx.nontrivial = true;
         ctx.class("nontrivial_real_idv");
+    }
+    // recovery rule: a recovery to the registered target that moved a positive balance AND a correctly authorized
+    // recovery that had to be refused (wrong target, no link, or unverified new account)
+    if rec_moved && rec_refused {
+        ctx.nontrivial = true;
+        ctx.class("nontrivial_recovery");
     }
     Ok(())
 }
